@@ -1497,6 +1497,7 @@ func main() {
 	runMatrices()
 	runRows()
 	runImages()
+	runTall()
 	chk.Finish()
 }
 
